@@ -1,5 +1,5 @@
 (** C04 — lifted x86 semantics match the processor on the integer core.  Property theorems only.
-    What is proved (arithmetic / logic group: add adc sub sbb cmp and or xor test, every operand form and width):
+    What is proved (arithmetic / logic group: add adc sub sbb cmp and or xor test inc dec neg, every operand form and width):
       (tie)     every such form of the lifted dump regenerated from /repo (one per mnemonic x operand-size x operand-shape
                 signature) whose operands have equal width IS, node for node, the mirror of Sem.v applied to its own operands;
       (meaning) for ALL operand expressions of equal width n, all register / flag / memory valuations and all interpretations
@@ -57,6 +57,45 @@ Theorem C04_zf_sf_pf : forall rho mu iota a b, operand_ok a = true -> operand_ok
 Proof. intros rho mu iota a b Ha Hb _ k. exact (znp_flags rho mu iota a b Ha Hb k). Qed.
 Print Assumptions C04_zf_sf_pf.
 
+(** inc, dec, neg: every regenerated form is the mirror (tie above); value and flags for all operands and states *)
+Theorem C04_unary_form_means_mirror : forall k l, is_mirror_u k l = true ->
+  exists a, operand_ok a = true /\ (size a = 8 \/ size a = 16 \/ size a = 32) /\
+            forall rho mu iota, map (eval rho mu iota) l = map (eval rho mu iota) (mirror_u k a).
+Proof. exact is_mirror_u_sound. Qed.
+Print Assumptions C04_unary_form_means_mirror.
+Theorem C04_inc : forall rho mu iota a, operand_ok a = true -> (size a = 8 \/ size a = 16 \/ size a = 32) ->
+  let c := alu_val Add a (una_const Inc a) in
+  eval rho mu iota c = (eval rho mu iota a + 1) mod 2 ^ size a /\
+  eval rho mu iota (add_of_src a (una_const Inc a) c) = Z.b2z (of_add (size a) (eval rho mu iota a) 1 0).
+Proof. exact inc_correct. Qed.
+Print Assumptions C04_inc.
+Theorem C04_dec : forall rho mu iota a, operand_ok a = true -> (size a = 8 \/ size a = 16 \/ size a = 32) ->
+  let c := alu_val Add a (una_const Dec a) in
+  eval rho mu iota c = (eval rho mu iota a - 1) mod 2 ^ size a /\
+  eval rho mu iota (add_of_src a (una_const Dec a) c) = Z.b2z (of_sub (size a) (eval rho mu iota a) 1 0).
+Proof. exact dec_correct. Qed.
+Print Assumptions C04_dec.
+Theorem C04_neg : forall rho mu iota a, operand_ok a = true -> (size a = 8 \/ size a = 16 \/ size a = 32) ->
+  let c := alu_val Sub (una_const Neg a) a in
+  eval rho mu iota c = (- eval rho mu iota a) mod 2 ^ size a /\
+  eval rho mu iota (sub_cf_src (una_const Neg a) a c) = Z.b2z (negb (eval rho mu iota a =? 0)) /\
+  eval rho mu iota (sub_of_src (una_const Neg a) a c) = Z.b2z (of_sub (size a) 0 (eval rho mu iota a) 0).
+Proof. exact neg_correct. Qed.
+Print Assumptions C04_neg.
+
+(** the destination: an assignment to bits [lo, hi) of a register (al, ah, ax ...) is rewritten by ExprAff into an assignment
+    of the whole register whose value has exactly those bits replaced by the source and every other bit unchanged *)
+Theorem C04_subregister_write_back : forall rho mu iota nm w rg tm lo hi src, 0 <= lo -> lo < hi -> hi <= w ->
+  match mk_aff (ESlice (EId nm w rg tm) lo hi) src with
+  | EAff d s => d = EId nm w rg tm /\
+      forall i, 0 <= i ->
+        Z.testbit (eval rho mu iota s) i = if (lo <=? i) && (i <? hi) then Z.testbit (eval rho mu iota src) (i - lo)
+                                           else (i <? w) && Z.testbit (rho nm) i
+  | _ => False
+  end.
+Proof. exact mk_aff_slice_bits. Qed.
+Print Assumptions C04_subregister_write_back.
+
 (** the carry / overflow identities themselves, for every width and value *)
 Theorem C04_carry_identities : forall n x y ci, 0 < n -> 0 <= x < 2 ^ n -> 0 <= y < 2 ^ n -> 0 <= ci <= 1 ->
   let bx := Z.testbit x (n - 1) in let by_ := Z.testbit y (n - 1) in
@@ -71,7 +110,9 @@ Print Assumptions C04_carry_identities.
 Example C04_mirror_layout : forall a b, let c := alu_val Add a b in
   mirror Add a b = [upd_zf c; upd_nf c; upd_pf c; upd_af c; EAff (flag "cf") (add_cf_src a b c); EAff (flag "of") (add_of_src a b c); mk_aff a c].
 Proof. reflexivity. Qed.
-(** non-vacuity: more than 2000 regenerated forms are tied; and the auxiliary-carry formula is refuted *)
+(** non-vacuity: more than 2000 regenerated binary forms and 150 unary forms are tied; and the auxiliary-carry formula is refuted *)
+Example C04_nonvacuous_unary : (150 <= n_tied_u)%nat.
+Proof. exact many_unary_forms_tied. Qed.
 Example C04_nonvacuous : (2000 <= n_tied)%nat.
 Proof. exact many_forms_tied. Qed.
 Example C04_af_refuted : exists rho, let a := EId "eax" 32 true false in let b := EId "ebx" 32 true false in
